@@ -140,11 +140,12 @@ class Client:
 
 
 class Interp:
-    def __init__(self, project, func, client):
+    def __init__(self, project, func, client, body=None):
         self.p = project
         self.func = func
         self.client = client
         self.loop_ids = {}
+        self.body = body if body is not None else func.node.body
 
     # ----------------------------------------------------------- conditions
     def cond(self, expr, state):
@@ -227,7 +228,7 @@ class Interp:
 
     # ----------------------------------------------------------- statements
     def run(self, init_states):
-        fl = self.exec_block(self.func.node.body, set(init_states))
+        fl = self.exec_block(self.body, set(init_states))
         # implicit return None
         for s in fl.normal:
             fl.ret.append((self.client.on_return(self, s, None, None), None, None))
